@@ -448,7 +448,12 @@ func (g *TGen) stmt() []*Node {
 				}
 			}
 			e := g.Expr(t, g.c.MaxDepth)
-			g.declare(tvar{name: name, t: t})
+			nv := tvar{name: name, t: t}
+			// re-declaring a parameter (a := a) does not make it an ordinary variable: it may still live in a register
+			for _, v := range g.vars(func(v tvar) bool { return v.name == name }) {
+				nv.param = nv.param || v.param
+			}
+			g.declare(nv)
 			if g.chance(3, "define") {
 				return []*Node{Define(name, e)}
 			}
